@@ -220,7 +220,8 @@ class Prop(Check):
         "Kwd.C21_glued_differs",
     ]
     DRIVER = "Drivers/Re.lean"
-    QUICK_CASES = 400
+    PROCS_THOROUGH = 4
+    QUICK_CASES = 300
     THOROUGH_CASES = 30000
     RULE = ("gram cases: a grammar of 2..7 elements over identifier-like and symbol literals (plain, assigned or through a "
             "match rule), ID, INT with choice / * / ? / !, and a text derived from it with glued tokens, injected word "
